@@ -16,6 +16,7 @@ type chainOpts struct {
 	moreFall   bool
 	allowEdits bool
 	moreStatic bool
+	big        bool // 10-25 providers
 }
 
 func tcOf(i int) int { return pool[i].tc }
@@ -50,6 +51,9 @@ func genChain(r *rng, o chainOpts) *ccase {
 	n := 2 + r.intn(8)
 	if r.chance(1, 5) {
 		n = 1 + r.intn(3)
+	}
+	if o.big {
+		n = 10 + r.intn(16)
 	}
 	nWrap := 0
 	wantErr := false
@@ -605,4 +609,11 @@ func ifaceSubst(r *rng, c *ccase) {
 	} else {
 		c.invOuts = substIn(c.invOuts, t, i, r, 30)
 	}
+}
+
+// bigchain: the same generator with 10-25 providers.
+func init() {
+	streams["bigchain"] = &stream{gen: func(r *rng) string {
+		return genChain(r, chainOpts{big: true, moreWrap: r.chance(1, 3), moreStatic: r.chance(1, 3)}).encode()
+	}, run: runChain}
 }
